@@ -59,7 +59,7 @@ impl Segment {
     }
 
     pub fn target_pc(&self) -> ProgramCounter {
-        ((self.pc.as_i64() + self.target_offset()) as usize).into()
+        (self.pc.as_i64().wrapping_add(self.target_offset()) as usize).into()
     }
 
     pub fn options(&self) -> &SegmentOptions {
@@ -75,7 +75,10 @@ impl Segment {
     }
 
     pub fn target_offset(&self) -> i64 {
-        self.options.target_address.as_i64() - self.options.initial_pc.as_i64()
+        self.options
+            .target_address
+            .as_i64()
+            .wrapping_sub(self.options.initial_pc.as_i64())
     }
 
     pub fn range_data(&self) -> &[u8] {
@@ -88,7 +91,10 @@ impl Segment {
 
     pub fn emit(&mut self, bytes: &[u8]) -> bool {
         let start = self.pc;
-        let end = self.pc + bytes.len();
+        let end = match start.as_usize().checked_add(bytes.len()) {
+            Some(end) => ProgramCounter::new(end),
+            None => return false,
+        };
         if start.as_usize() > 0xffff || end.as_usize() > 0x10000 {
             return false;
         }
